@@ -233,6 +233,13 @@ def native(art, tier, stats, fnd):
         if open(tgt).read() != before: fnd.report("file-touched-on-error", "a rejected program modified the existing FILE", {"main.sy": PROG_BAD})
         r = run(["-o", tgt, "ok2.sy"]); r2 = run(["-o", tgt, "ok.sy"]); ref = run(["-o", "-", "ok.sy"]); n += 3
         if open(tgt).read() != ref.stdout: fnd.report("stale-tail-in-file", "compiling a shorter program into an existing FILE does not leave exactly the new program (%d vs %d bytes)" % (os.path.getsize(tgt), len(ref.stdout)), {"v1.sy": PROG_OK2, "v2.sy": PROG_OK}, cmd="sylt -o out.lua v1.sy && sylt -o out.lua v2.sy && sylt -o - v2.sy | cmp - out.lua")
+        # FILE already exists in a state related to the new output: empty, a cut-off earlier output, the output plus a tail, identical
+        for state, make in (("empty", lambda o: ""), ("cut_off_earlier_output", lambda o: o[:5000]), ("output_plus_tail", lambda o: o + "-- appended\n"), ("identical", lambda o: o), ("same_length_different_bytes", lambda o: "x" * len(o))):
+            pre = os.path.join(d, "pre_%s.lua" % state); open(pre, "w").write(make(ref.stdout))
+            r3 = run(["-o", pre, "ok.sy"]); n += 1
+            if r3.returncode != 0 or open(pre).read() != ref.stdout:
+                fnd.report("existing-file-not-replaced:" + state, "FILE existed (%s): after `sylt -o FILE` (exit %d) it holds %d bytes, `-o -` prints %d" % (state.replace("_", " "), r3.returncode, os.path.getsize(pre), len(ref.stdout)), {"main.sy": PROG_OK},
+                           cmd="sylt -o - main.sy > want.lua; <prepare out.lua: %s>; sylt -o out.lua main.sy; cmp want.lua out.lua" % state)
         # unwritable path
         r = run(["-o", os.path.join(d, "no_such_dir", "x.lua"), "ok.sy"]); n += 1
         if r.returncode == 0: fnd.report("exit-status:unwritable-output", "an unwritable FILE gives exit status 0", {"main.sy": PROG_OK})
